@@ -1,6 +1,7 @@
 package verifsim
 
 import (
+	"context"
 	"fmt"
 	"math/rand/v2"
 	"net"
@@ -27,6 +28,9 @@ type C09Params struct {
 	// changes (NAT rebinding); with connection IDs and return-routability checking negotiated the
 	// server then sends path-validation records while its own writers are busy
 	RebindAt []int `json:"rebind_at,omitempty"`
+	// Updates: DTLS 1.3 only: that many UpdateKeys calls per side, issued from their own
+	// goroutines while the writers run (KeyUpdate, its ACK and the epoch switch race the writes)
+	Updates int `json:"updates,omitempty"`
 }
 
 func c09Counts(tier string) (int, int) {
@@ -54,6 +58,10 @@ func c09Gen(r *rand.Rand, tier string, idx int) any {
 		}
 		p.WritersS = 1 + r.IntN(3)
 		p.PerWriter = 4 + r.IntN(5)
+		p.EarlyWrite = false
+	}
+	if c, _ := dataCfgByName(p.Cfg); c.C.MaxVer == 13 && r.IntN(2) == 0 {
+		p.Updates = 1 + r.IntN(3)
 		p.EarlyWrite = false
 	}
 	if r.IntN(3) != 0 {
@@ -163,6 +171,27 @@ func c09Run(rc *RunCtx, params any) {
 			}
 		}
 	}
+	startUpdaters := func() {
+		for _, ep := range []string{"c", "s"} {
+			ep := ep
+			conn := pair.ConnOf(ep)
+			writesLive++
+			s.Go(ep+"-updater", func() {
+				defer func() { writesLive-- }()
+				for k := 0; k < p.Updates; k++ {
+					ctx, cancel := context.WithTimeout(context.Background(), s.Uniq(20*time.Second))
+					err := conn.UpdateKeys(ctx, dtls.KeyUpdateOptions{RequestPeerUpdate: k%2 == 1})
+					cancel()
+					if err != nil {
+						s.Record("update-err", ep, err.Error(), nil)
+
+						return
+					}
+					s.Probe("key-update-racing-writers")
+				}
+			})
+		}
+	}
 	if p.EarlyWrite {
 		// never at the same virtual instant as the server's handshake start (timer ties)
 		off := s.Ch.Draw("start", func(r *rand.Rand) Dec { return Dec{C: 1 + r.Int64N(999_983)} })
@@ -222,6 +251,9 @@ func c09Run(rc *RunCtx, params any) {
 		}
 		if !p.EarlyWrite {
 			startWriters()
+		}
+		if p.Updates > 0 {
+			startUpdaters()
 		}
 		for i := 0; i < p.Inject; i++ {
 			// a datagram that cannot be authenticated / parsed; may provoke alerts
